@@ -165,6 +165,45 @@ def hello_ops(msg, rng, is_client):
             nd[2:4] = b"\xfe\xfe"
             hh.exts = ex[:idx] + [(et, bytes(nd))] + ex[idx + 1:]
             out("ext_first_value_unknown:%d" % et, hh)
+    if is_client and ex and ex[-1][0] == 41:
+        # pre_shared_key: well-framed variants of the offer itself
+        try:
+            ed = ex[-1][1]
+            il = wire.u16(ed, 0)
+            ids = []
+            i = 2
+            while i < 2 + il:
+                n = wire.u16(ed, i)
+                ids.append((ed[i + 2:i + 2 + n], ed[i + 2 + n:i + 6 + n]))
+                i += 6 + n
+            bl = wire.u16(ed, i)
+            bs = []
+            j = i + 2
+            while j < i + 2 + bl:
+                n = ed[j]
+                bs.append(ed[j + 1:j + 1 + n])
+                j += 1 + n
+
+            def ser_psk(ids_, bs_):
+                a = b"".join(wire.p16(len(x)) + x + age for x, age in ids_)
+                b = b"".join(bytes([len(x)]) + x for x in bs_)
+                return wire.p16(len(a)) + a + wire.p16(len(b)) + b
+            for name, ids2, bs2 in (
+                    ("psk_empty_identity", [(b"", ids[0][1])] + ids[1:], bs),
+                    ("psk_empty_binder", ids, [b""] + bs[1:]),
+                    ("psk_no_identities", [], bs),
+                    ("psk_no_binders", ids, []),
+                    ("psk_extra_binder", ids, bs + [b"\x00" * 32]),
+                    ("psk_extra_identity", ids + [(b"x", b"\0\0\0\0")],
+                     bs),
+                    ("psk_short_binder", ids, [bs[0][:31]] + bs[1:]),
+                    ("psk_identity_64k", [(b"i" * 65000, ids[0][1])], bs)):
+                hh = copy.copy(h)
+                hh.exts = ex[:-1] + [(41, ser_psk(ids2, bs2))]
+                out(name, hh)
+        except Exception as e:   # noqa
+            import sys
+            sys.stderr.write("psk ops: %r\n" % (e,))
     if ex:
         hh = copy.copy(h)
         hh.exts = list(reversed(ex))
@@ -237,6 +276,56 @@ def zbomb(declared, real):
     return make
 
 
+_bcache = {}
+
+
+def brotli_zeros(mlen, blocks):
+    """RFC 7932 stream of `blocks` compressed meta-blocks, each expanding to
+    `mlen` zero bytes: one literal 0x00, then a copy of mlen-1 bytes from
+    distance 1.  All three prefix codes have a single symbol (0 bits per
+    symbol), so a block costs about 12 bytes."""
+    assert 2119 <= mlen <= 65536
+    acc = 0
+    n = 0
+
+    def put(v, bits):
+        nonlocal acc, n
+        acc |= v << n
+        n += bits
+    put(0, 1)                    # WBITS 16
+    for _ in range(blocks):
+        put(0, 1)                # ISLAST 0
+        put(0, 2)                # MNIBBLES 4
+        put(mlen - 1, 16)
+        put(0, 1)                # compressed
+        put(0, 3)                # one block type for L, I, D
+        put(0, 2)                # NPOSTFIX
+        put(0, 4)                # NDIRECT
+        put(0, 2)                # context mode
+        put(0, 1)                # NTREESL 1
+        put(0, 1)                # NTREESD 1
+        put(1, 2); put(0, 2); put(0, 8)       # literal code: symbol 0 only
+        put(1, 2); put(0, 2); put(399, 10)    # command code: symbol 399 only
+        put(1, 2); put(0, 2); put(16, 6)      # distance code: symbol 16 only
+        put(mlen - 1 - 2118, 24)              # copy length extra bits
+        put(0, 1)                             # distance extra: distance 1
+    put(1, 1)                    # ISLAST
+    put(1, 1)                    # ISLASTEMPTY
+    return acc.to_bytes((n + 7) // 8, "little")
+
+
+def bbomb(declared, mlen, blocks):
+    """CompressedCertificate body: algorithm brotli (lazy)"""
+    def make():
+        k = (mlen, blocks)
+        if k not in _bcache:
+            _bcache[k] = brotli_zeros(mlen, blocks)
+        comp = _bcache[k]
+        return wire.hs_msg(25, p16(2) + p24(declared) + p24(len(comp)) +
+                           comp)
+    return make
+
+
 def cert_ops(msg, rng):
     """operators specific to (Compressed)Certificate messages"""
     ops = []
@@ -245,6 +334,10 @@ def cert_ops(msg, rng):
         ops.append(("zbomb_small_declared", zbomb(100, 50 * 1024 * 1024)))
         ops.append(("zbomb_max_declared", zbomb(0xFFFFFF, 50 * 1024 * 1024)))
         ops.append(("zbomb_zero_declared", zbomb(0, 50 * 1024 * 1024)))
+        # brotli (decoded by the bundled pure-python decoder): one block
+        # over the declared size, and many blocks each within it
+        ops.append(("zbomb_brotli_one_block", bbomb(3000, 65536, 1)))
+        ops.append(("zbomb_brotli_many_blocks", bbomb(50000, 50000, 900)))
         body = msg[4:]
         ops.append(("comp_alg_unknown",
                     wire.hs_msg(25, b"\x00\x09" + body[2:])))
